@@ -280,6 +280,11 @@ func (s *Sched) closeAll() {
 	}
 }
 
+// Switches returns the number of task switches so far.
+//
+//go:norace
+func (s *Sched) Switches() int64 { return s.switches }
+
 //go:norace
 func (s *Sched) makeRunnable(id int) {
 	if id >= 0 && s.tasks[id].state == stBlocked {
